@@ -58,7 +58,7 @@ CLANG = "clang-14"
 
 PROFILES_QUICK = {
     "blocks":   C08.prof(K=4, depth=3, loop=True, init=True, nv=2),
-    "class":    C08.prof(K=4, depth=3, cls=True, late=True, nv=2),
+    "class":    C08.prof(K=5, depth=2, cls=True, late=True, nv=2, maxpar=1),     # K=5: a member used before its declaration + one more declaration
     "ns":       C08.prof(K=4, depth=3, ns=True, qual=True, nv=2),
     "overload": C08.prof(K=4, depth=2, ns=True, ovl=True, nv=1, maxpar=0, sigs=C08.SIGS, argt=C08.ARGT),
 }
@@ -82,7 +82,7 @@ def check_clang():
 def scopes_units(tier, seed):
     """Translation units made of Scopes.tla programs -> [{"kind": "scopes", "lang", "fname", "text", "progs": [(tag, row)], "table"}]"""
     progs, gstats, gtl = C08.generate(tier, seed, profiles=PROFILES_QUICK if tier == "quick" else PROFILES_THOROUGH,
-                                      cap=36 if tier == "quick" else 1500, nsim=8 if tier == "quick" else 500)
+                                      cap=44 if tier == "quick" else 500, nsim=8 if tier == "quick" else 200)
     units = []
     for lang in ("c++", "c"):
         sel = [p for p in progs if lang == "c++" or p["c"]]
@@ -97,7 +97,7 @@ def scopes_units(tier, seed):
 def generic_units(tier, seed):
     """MiniC programs (each as C and as C++) and C14's generated programs."""
     units = []
-    n = 4 if tier == "quick" else 120
+    n = 4 if tier == "quick" else 40
     for profile in ("mix", "ptr", "loop", "cond"):
         progs = minic_gen.generate(seed * 101 + len(profile), "p32", profile, n, "m%s" % profile[0])
         for k in range(0, len(progs), 2):
@@ -217,11 +217,11 @@ def judge_runs(results):
 
 
 def judge_dumps(rows):
-    """DumpInv.tla on every dump (C14's machinery), in batches of 16 dumps so that several TLC processes share the work."""
+    """DumpInv.tla on every dump (C14's machinery: batches by token count, several TLC processes)."""
     jd = C14.Judge()
     for n, row in enumerate(rows):
         jd.add(row)
-        if n % 24 == 23:
+        if len(rows) < 200 and n % 24 == 23:       # few dumps: still use more than one TLC process
             jd.flush()
     return jd.result()
 
@@ -330,6 +330,7 @@ def main(tier, seed, replay=None):
                 c["what"] = "%s | e.g. %s: %s\n%s" % (it["kind"], b["name"], it["what"], src[:1500])
     for key, c in sorted(link_classes.items()):
         violations.append({"key": key, "what": "%d programs; %s" % (c["n"], c["what"]), "replay": c["replay"]})
+    violations = C08.drop_assumed(violations)
     rc, new, known = vlib.verdict(PID, violations)
 
     tokens = sum(r["tokens"] for r in ok)
